@@ -12,12 +12,12 @@ cmake --build _build -j 8 > /tmp/confirm-$P-$M.build.log 2>&1 || { echo "BUILD F
 (cd _build && ctest -j1 --timeout 900 2>&1 | tail -3) > /tmp/confirm-$P-$M.tests.log
 TESTS=$(grep -c "100% tests passed" /tmp/confirm-$P-$M.tests.log)
 DEMO=$(ls $D/demo_*.cpp | head -1)
-g++ -std=c++11 -DH5_USE_110_API=1 -I$WT/include -I$WT/_build/include -I/usr/include/hdf5/serial "$DEMO" -o /tmp/confirm-$P-$M.demo -L$WT/_build -lnixio -Wl,-rpath,$WT/_build -L/usr/lib/x86_64-linux-gnu/hdf5/serial -lhdf5 -lboost_regex -lboost_filesystem -lboost_system -lboost_date_time 2>/tmp/confirm-$P-$M.demo.log || { echo "DEMO BUILD FAILED"; git checkout -q -- .; exit 1; }
+g++ -std=c++11 -pthread -DH5_USE_110_API=1 -I$WT/include -I$WT/_build/include -I/usr/include/hdf5/serial "$DEMO" -o /tmp/confirm-$P-$M.demo -L$WT/_build -lnixio -Wl,-rpath,$WT/_build -L/usr/lib/x86_64-linux-gnu/hdf5/serial -lhdf5 -lboost_regex -lboost_filesystem -lboost_system -lboost_date_time 2>/tmp/confirm-$P-$M.demo.log || { echo "DEMO BUILD FAILED"; git checkout -q -- .; exit 1; }
 /tmp/confirm-$P-$M.demo > /tmp/confirm-$P-$M.with.log 2>&1; RC_WITH=$?
 git checkout -q -- .
 cmake --build _build -j 8 >> /tmp/confirm-$P-$M.build.log 2>&1
 # header-only changes live in the demo binary itself: rebuild it against the reverted tree
-g++ -std=c++11 -DH5_USE_110_API=1 -I$WT/include -I$WT/_build/include -I/usr/include/hdf5/serial "$DEMO" -o /tmp/confirm-$P-$M.demo -L$WT/_build -lnixio -Wl,-rpath,$WT/_build -L/usr/lib/x86_64-linux-gnu/hdf5/serial -lhdf5 -lboost_regex -lboost_filesystem -lboost_system -lboost_date_time 2>>/tmp/confirm-$P-$M.demo.log
+g++ -std=c++11 -pthread -DH5_USE_110_API=1 -I$WT/include -I$WT/_build/include -I/usr/include/hdf5/serial "$DEMO" -o /tmp/confirm-$P-$M.demo -L$WT/_build -lnixio -Wl,-rpath,$WT/_build -L/usr/lib/x86_64-linux-gnu/hdf5/serial -lhdf5 -lboost_regex -lboost_filesystem -lboost_system -lboost_date_time 2>>/tmp/confirm-$P-$M.demo.log
 /tmp/confirm-$P-$M.demo > /tmp/confirm-$P-$M.without.log 2>&1; RC_WITHOUT=$?
 rm -f /tmp/confirm-$P-$M.demo
 echo "$P-$M: tests_pass=$TESTS demo_rc_with_patch=$RC_WITH demo_rc_without=$RC_WITHOUT"
